@@ -262,10 +262,16 @@ class Single(Obligation):
         return call_catching(self.kernel, _real_root(), inp["s"])
 
     def prop(self, inp, r):
-        return valid_ident(r)
+        ok = valid_ident(r)
+        if self.kname == "enum_string_member" and not isinstance(r, Raised) and r is not None and len(r) > 0:
+            # Enum's own rules for names with a leading underscore: `_x_` is reserved (ValueError when the class is
+            # created), `__x__` is not a member, `__x` is mangled in the class body and not a member either
+            lead = r.startswith("_")
+            ok = s_and(ok, s_not(lead)) if not isinstance(ok, bool) or not isinstance(lead, bool) else (ok and not lead)
+        return ok
 
     def describe_violation(self, inp, r):
-        return "%s(%r) -> %r is not a non-empty, non-keyword Python identifier" % (self.kname, inp["s"], r)
+        return "%s(%r) -> %r is not a non-empty, non-keyword Python identifier%s" % (self.kname, inp["s"], r, " that Enum accepts as a member name (leading underscore)" if self.kname == "enum_string_member" else "")
 
 
 def all_distinct(names):
